@@ -135,7 +135,8 @@ E2 == Entry("keys", <<E2_catalog, E2_stock, E2_orgs, E2_geo, E2_ratings>>, <<E2_
   << Op(Doc(<< Fo("top", <<Fl("rating"), Fl("stock"), Fl("name")>>) >>, <<>>, <<>>), <<>>),
      Op(Doc(<< Fo("products", <<Fl("stock"), Fo("maker", <<Fl("title"), Fo("hq", <<Fl("addr"), Fl("lat")>>)>>)>>) >>, <<>>, <<>>), <<>>),
      Op(Doc(<< Fo("sites", <<Fl("lat"), Fl("addr"), Fo("org", <<Fl("title")>>)>>),
-               Field("product", "", <<Arg("id", Str("p2"))>>, <<>>, <<Fl("rating"), Fl("pkg")>>) >>, <<>>, <<>>), <<>>) >>)
+               Field("product", "", <<Arg("id", Str("p2"))>>, <<>>, <<Fl("rating"), Fl("pkg")>>) >>, <<>>, <<>>), <<>>),
+     Op(Doc(<< Fo("top", <<Fl("sku"), Fl("stock")>>) >>, <<>>, <<>>), <<>>) >>)
 
 \* ============================================================================ E3 "requires"
 \* @requires on scalars of the same entity, through an owned entity reference into an @external field
@@ -173,13 +174,17 @@ E3_U2 == Uv("nullable-nulls", <<
   O("d2", "Dims", [w |-> Null, h |-> Num(4)]),
   O("v1", "Vendor", [id |-> Str("v1"), country |-> Str("DE"), label |-> Str("Vau")]),
   O("v2", "Vendor", [id |-> Str("v2"), country |-> Null, label |-> Str("Wye")]) >>)
+\* (the object with the null in a non-null position, v3, feeds no @requires input: a subgraph's own null
+\* propagation would wipe the sibling input `country` of the same entity fetch -- no batching gateway can
+\* then answer like the monolith, so such universes are outside "consistent")
 E3_U3 == Uv("null-in-nonnull", <<
-  O("Q", "Query", [items |-> Lst(<<Ref("i1"), Ref("i2")>>), item |-> E3_itemFn, vendors |-> Lst(<<Ref("v1"), Ref("v2")>>)]),
+  O("Q", "Query", [items |-> Lst(<<Ref("i1"), Ref("i2")>>), item |-> E3_itemFn, vendors |-> Lst(<<Ref("v1"), Ref("v3"), Ref("v2")>>)]),
   O("i1", "Item", [id |-> Str("i1"), price |-> Num(10), weight |-> Num(2), dims |-> Ref("d1"), vendor |-> Ref("v1")]),
   O("i2", "Item", [id |-> Str("i2"), price |-> Num(25), weight |-> Num(7), dims |-> Ref("d1"), vendor |-> Ref("v2")]),
   O("d1", "Dims", [w |-> Num(1), h |-> Num(2)]),
   O("v1", "Vendor", [id |-> Str("v1"), country |-> Str("DE"), label |-> Str("Vau")]),
-  O("v2", "Vendor", [id |-> Str("v2"), country |-> Str("FR"), label |-> Null]) >>)
+  O("v2", "Vendor", [id |-> Str("v2"), country |-> Str("FR"), label |-> Str("Wye")]),
+  O("v3", "Vendor", [id |-> Str("v3"), country |-> Str("IT"), label |-> Null]) >>)
 E3_U4 == Uv("empty-lists", <<
   O("Q", "Query", [items |-> Lst(<<>>), item |-> E3_itemFn, vendors |-> Lst(<<>>)]),
   O("i1", "Item", [id |-> Str("i1"), price |-> Num(10), weight |-> Num(2), dims |-> Ref("d1"), vendor |-> Ref("v1")]),
@@ -323,7 +328,8 @@ E6_U4 == Uv("empty-lists", <<
 
 E6 == Entry("deep", <<E6_catalog, E6_library, E6_people>>, <<E6_U1, E6_U2, E6_U3, E6_U4>>, <<>>, <<>>,
   << Op(Doc(<< Fo("shelves", <<Fl("label"), Fo("books", <<Fl("title"), Fo("authors", <<Fl("name")>>)>>)>>) >>, <<>>, <<>>), <<>>),
-     Op(Doc(<< Fo("grid", <<Fl("isbn"), Fo("authors", <<Fo("books", <<Fl("title")>>)>>)>>) >>, <<>>, <<>>), <<>>) >>)
+     Op(Doc(<< Fo("grid", <<Fl("isbn"), Fo("authors", <<Fo("books", <<Fl("title")>>)>>)>>) >>, <<>>, <<>>), <<>>),
+     Op(Doc(<< Fo("grid", <<Fl("title")>>) >>, <<>>, <<>>), <<>>) >>)
 
 \* ============================================================================ the catalog
 Catalog == <<[E1 EXCEPT !.broken = E1_broken], E2, E3, E4, E5, E6>>
